@@ -301,8 +301,8 @@ Definition py_call (k : kls) (o : obj) : list ev * outcome :=
 
 (* ------------------------------------------------------------------ _zope_interface_coptimizations.c *)
 
-(* IB__adapt__: l = PyList_GET_SIZE(adapter_hooks); for (i = 0; i < l; i++) { ... }
-   [n] counts the remaining iterations l - i. *)
+(* IB__adapt__: for (i = 0; i < PyList_GET_SIZE(adapter_hooks); i++) { ... }
+   [n] counts the remaining iterations size - i (the hooks do not change the list in this model). *)
 Fixpoint c_hook_loop (n i : nat) (hs : list hook) : list ev * res (option value) :=
   match n with
   | 0 => ([], Ok None)
